@@ -47,7 +47,10 @@ static int hm_closeExisting(KSI_DataHasher *hasher, KSI_DataHash *data_hash) {
 		}
 	}
 	if (found >= 0) {
-		memcpy(data_hash->imprint + 1, VERIF_hm_rec[found].digest, hash_length);
+		/* byte loop, not memcpy: 'found' is a symbolic index when message bytes are symbolic */
+		for (i = 0; i < 64; i++) {
+			if (i < hash_length) data_hash->imprint[1 + i] = VERIF_hm_rec[found].digest[i];
+		}
 	} else {
 		for (i = 0; i < 64; i++) {
 			u8 b = ND(u8, hm_digest);
